@@ -16,4 +16,13 @@ def run_selftests(pid, root, ana):
         from .selftest import corpus
     except ImportError:
         return {"mutants_applied": 0, "note": "corpus not built yet", "errors": []}
-    return corpus.run(pid, root, ana)
+    res = corpus.run(pid, root, ana)
+    if res.get("on_reference_tree"):
+        # mutant-on-twin composition: a refactoring must not hide a violation from the (normalising) analysis
+        from .selftest import compose
+        c = compose.run(root, pid)
+        res["composed"] = {k: v for k, v in c.items() if k != "undecided_list"}
+        res["composed"]["undecided_sample"] = c["undecided_list"][:8]
+        for m in c["masked_list"]:
+            res["errors"].append(f"composition {m}: the mutant is reported on the plain tree but masked after the refactoring")
+    return res
